@@ -144,15 +144,15 @@ theorem stepArms_mono {s1 s2 : List S → Except Err S} (h : Ext s1 s2) (f : FDe
       | some es =>
         rw [ht] at hs
         simp only at hs ⊢
-        cases he : evalArgs s1 env es with
+        cases he : evalArgs s1 (env ++ inputsEnv f args) es with
         | error err => rw [he] at hs; cases hs
-        | ok xs => rw [he] at hs; rw [evalArgs_mono h env es xs he]; exact hs
+        | ok xs => rw [he] at hs; rw [evalArgs_mono h (env ++ inputsEnv f args) es xs he]; exact hs
       | none =>
         rw [ht] at hs
         simp only at hs ⊢
-        cases he : evalScalar s1 env body with
+        cases he : evalScalar s1 (env ++ inputsEnv f args) body with
         | error err => rw [he] at hs; cases hs
-        | ok r => rw [he] at hs; rw [evalScalar_mono h env body r he]; exact hs
+        | ok r => rw [he] at hs; rw [evalScalar_mono h (env ++ inputsEnv f args) body r he]; exact hs
 
 theorem loopArms_mono {s1 s2 : List S → Except Err S} (h : Ext s1 s2) (f : FDef) :
     ∀ (it1 it2 : Nat) (args : List S) (v : S), it1 ≤ it2 →
@@ -173,8 +173,8 @@ theorem loopArms_mono {s1 s2 : List S → Except Err S} (h : Ext s1 s2) (f : FDe
       | ret r => exact hv
       | tail args' => exact ih j args' v (by omega) hv
 
-theorem runArmsRec_mono {s1 s2 : List S → Except Err S} (h : Ext s1 s2) (args : List S) :
-    ∀ (arms : List (P × E)) (v : S), runArmsRec s1 args arms = .ok v → runArmsRec s2 args arms = .ok v := by
+theorem runArmsRec_mono {s1 s2 : List S → Except Err S} (h : Ext s1 s2) (f : FDef) (args : List S) :
+    ∀ (arms : List (P × E)) (v : S), runArmsRec f s1 args arms = .ok v → runArmsRec f s2 args arms = .ok v := by
   intro arms
   induction arms with
   | nil => intro v hv; simp [runArmsRec] at hv
@@ -184,7 +184,7 @@ theorem runArmsRec_mono {s1 s2 : List S → Except Err S} (h : Ext s1 s2) (args 
     simp only [runArmsRec] at hv ⊢
     cases hm : matchArgs p args [] with
     | none => rw [hm] at hv; exact ih v hv
-    | some env => rw [hm] at hv; exact evalScalar_mono h env body v hv
+    | some env => rw [hm] at hv; exact evalScalar_mono h (env ++ inputsEnv f args) body v hv
 
 theorem callRec_step (f : FDef) : ∀ n, Ext (callRec f n) (callRec f (n + 1)) := by
   intro n
@@ -195,7 +195,7 @@ theorem callRec_step (f : FDef) : ∀ n, Ext (callRec f n) (callRec f (n + 1)) :
     simp only [callRec] at h ⊢
     split at h
     · cases h
-    · next hne => rw [if_neg hne]; exact runArmsRec_mono ih a f.arms r h
+    · next hne => rw [if_neg hne]; exact runArmsRec_mono ih f a f.arms r h
 
 theorem callRec_mono (f : FDef) {n m : Nat} (h : n ≤ m) : Ext (callRec f n) (callRec f m) := by
   induction m with
@@ -319,8 +319,8 @@ theorem evalArgs_sound (f : FDef) {self : List S → Except Err S} (hs : Sound f
 theorem stepArms_sound (f : FDef) {self : List S → Except Err S} (hs : Sound f self) (args : List S) :
     ∀ (arms : List (P × E)) (st : Step), stepArms self f args arms = .ok st →
       match st with
-      | .ret v => ∃ n, runArmsRec (callRec f n) args arms = .ok v
-      | .tail args' => ∀ m v, callRec f m args' = .ok v → ∃ n, runArmsRec (callRec f n) args arms = .ok v := by
+      | .ret v => ∃ n, runArmsRec f (callRec f n) args arms = .ok v
+      | .tail args' => ∀ m v, callRec f m args' = .ok v → ∃ n, runArmsRec f (callRec f n) args arms = .ok v := by
   intro arms
   induction arms with
   | nil => intro st h; simp [stepArms] at h
@@ -345,27 +345,27 @@ theorem stepArms_sound (f : FDef) {self : List S → Except Err S} (hs : Sound f
       | some es =>
         rw [ht] at h
         simp only at h
-        cases he : evalArgs self env es with
+        cases he : evalArgs self (env ++ inputsEnv f args) es with
         | error err => rw [he] at h; cases h
         | ok xs =>
           rw [he] at h
           simp only [Except.ok.injEq] at h; subst h
           intro m v hv
-          obtain ⟨n1, h1⟩ := evalArgs_sound f hs env es xs he
+          obtain ⟨n1, h1⟩ := evalArgs_sound f hs (env ++ inputsEnv f args) es xs he
           refine ⟨max n1 m, ?_⟩
           simp only [runArmsRec, hm]
-          exact tail_body_rec f _ env body es xs ht
-            (evalArgs_mono (callRec_mono f (Nat.le_max_left ..)) env es xs h1) v
+          exact tail_body_rec f _ (env ++ inputsEnv f args) body es xs ht
+            (evalArgs_mono (callRec_mono f (Nat.le_max_left ..)) (env ++ inputsEnv f args) es xs h1) v
             (callRec_mono f (Nat.le_max_right ..) _ _ hv)
       | none =>
         rw [ht] at h
         simp only at h
-        cases he : evalScalar self env body with
+        cases he : evalScalar self (env ++ inputsEnv f args) body with
         | error err => rw [he] at h; cases h
         | ok r =>
           rw [he] at h
           simp only [Except.ok.injEq] at h; subst h
-          obtain ⟨n, hn⟩ := evalE_sound f hs env body _ (evalScalar_ok.1 he)
+          obtain ⟨n, hn⟩ := evalE_sound f hs (env ++ inputsEnv f args) body _ (evalScalar_ok.1 he)
           exact ⟨n, by simp only [runArmsRec, hm]; exact evalScalar_ok.2 hn⟩
 
 theorem loopArms_sound (f : FDef) {self : List S → Except Err S} (hs : Sound f self) :
@@ -412,28 +412,28 @@ theorem tail_arity (f : FDef) (self : List S → Except Err S) (args : List S) :
       cases ht : tailShape f body with
       | none =>
         rw [ht] at h; simp only at h
-        cases he : evalScalar self env body with
+        cases he : evalScalar self (env ++ inputsEnv f args) body with
         | error e => rw [he] at h; cases h
         | ok r => rw [he] at h; cases h
       | some es =>
         rw [ht] at h; simp only at h
-        cases he : evalArgs self env es with
+        cases he : evalArgs self (env ++ inputsEnv f args) es with
         | error e => rw [he] at h; cases h
         | ok xs =>
           rw [he] at h
           simp only [Except.ok.injEq, Step.tail.injEq] at h; subst h
-          have hlen : ∀ (es : List E) (xs : List S), evalArgs self env es = .ok xs → xs.length = es.length := by
+          have hlen : ∀ (es : List E) (xs : List S), evalArgs self (env ++ inputsEnv f args) es = .ok xs → xs.length = es.length := by
             intro es
             induction es with
             | nil => intro xs hx; simp only [evalArgs, Except.ok.injEq] at hx; subst hx; rfl
             | cons e es ih2 =>
               intro xs hx
               simp only [evalArgs] at hx
-              cases h1 : evalScalar self env e with
+              cases h1 : evalScalar self (env ++ inputsEnv f args) e with
               | error err => rw [h1] at hx; cases hx
               | ok x =>
                 rw [h1] at hx
-                cases h2 : evalArgs self env es with
+                cases h2 : evalArgs self (env ++ inputsEnv f args) es with
                 | error err => rw [h2] at hx; cases hx
                 | ok ys => rw [h2] at hx; simp only [Except.ok.injEq] at hx; subst hx; simp [ih2 ys h2]
           rw [hlen es xs he]
@@ -553,7 +553,7 @@ theorem evalArgs_complete (f : FDef) (n : Nat) (hc : Complete f n) (env : Env) :
 /-- one arm pass of the recursion is one pass of the loop, possibly followed by the loop on
     the tail call's arguments -/
 theorem runArmsRec_complete (f : FDef) (n : Nat) (hc : Complete f n) (args : List S) :
-    ∀ (arms : List (P × E)) (v : S), runArmsRec (callRec f n) args arms = .ok v →
+    ∀ (arms : List (P × E)) (v : S), runArmsRec f (callRec f n) args arms = .ok v →
       ∃ d it, (stepArms (callImpl f it d) f args arms = .ok (.ret v)) ∨
         (∃ args', stepArms (callImpl f it d) f args arms = .ok (.tail args') ∧
           args'.length = f.arity ∧ callImpl f it (d + 1) args' = .ok v) := by
@@ -574,15 +574,15 @@ theorem runArmsRec_complete (f : FDef) (n : Nat) (hc : Complete f n) (args : Lis
       simp only at h
       cases ht : tailShape f body with
       | none =>
-        obtain ⟨d, it, hd⟩ := evalE_complete f n hc env body _ (evalScalar_ok.1 h)
+        obtain ⟨d, it, hd⟩ := evalE_complete f n hc (env ++ inputsEnv f args) body _ (evalScalar_ok.1 h)
         exact ⟨d, it, Or.inl (by simp only [stepArms, hm, ht]; rw [evalScalar_ok.2 hd])⟩
       | some es =>
-        obtain ⟨xs, hxs, hself, hlen⟩ := tail_body_inv f _ env body es ht v h
-        obtain ⟨d1, i1, h1⟩ := evalArgs_complete f n hc env es xs hxs
+        obtain ⟨xs, hxs, hself, hlen⟩ := tail_body_inv f _ (env ++ inputsEnv f args) body es ht v h
+        obtain ⟨d1, i1, h1⟩ := evalArgs_complete f n hc (env ++ inputsEnv f args) es xs hxs
         obtain ⟨d2, i2, h2⟩ := hc _ _ hself
         refine ⟨max d1 d2, max i1 i2, Or.inr ⟨xs, ?_, hlen, ?_⟩⟩
         · simp only [stepArms, hm, ht]
-          rw [evalArgs_mono (callImpl_mono f _ _ _ _ (Nat.le_max_left ..) (Nat.le_max_left ..)) env es xs h1]
+          rw [evalArgs_mono (callImpl_mono f _ _ _ _ (Nat.le_max_left ..) (Nat.le_max_left ..)) (env ++ inputsEnv f args) es xs h1]
         · exact callImpl_mono f _ _ _ _ (by omega) (Nat.le_max_right ..) _ _ h2
 
 theorem callRec_complete (f : FDef) : ∀ n, Complete f n := by
